@@ -483,12 +483,3 @@ func (l *Lab) classifyMissingNode(res OpResult, opName string, rootVer uint64, h
 	}
 	return fmt.Sprintf("c06/%s/%s/retained-root-loses-%s-%s", l.Backend, opName, strings.ReplaceAll(kind, " ", "-"), orOK(class)), why
 }
-
-func (l *Lab) finalizedPut(res OpResult, h hash.Hash) bool {
-	for _, f := range res.Final {
-		if f.Put[h] {
-			return true
-		}
-	}
-	return false
-}
